@@ -1164,7 +1164,7 @@ func overlap(rng *rand.Rand, cross bool) (regD, regL, trafficOK, clear bool, det
 		for _, pd := range []*linkworld.Pending{pd1, pd2} {
 			for _, dir := range []string{"A", "B"} {
 				for _, pl := range payloads {
-					if bytes.Contains(pd.Proxy.RawBytes[dir], pl[:32]) {
+					if bytes.Contains(pd.Proxy.Raw(dir), pl[:32]) {
 						clear = true
 					}
 				}
